@@ -78,8 +78,12 @@ def replay_apply(data):
     for tag, Rv in variants:
         op = SymmetryOperation(Rv, t)
         a = op.apply(x)
-        b = op.apply(np.hstack([x, [[1.0]]]))[:, :3]
+        x4 = np.hstack([x, [[1.0]]])
+        b = op.apply(x4)[:, :3].copy()
+        b2 = op.apply(x4)[:, :3]
         want = x @ R.T + (t % 1)
+        if not np.allclose(b2, want, rtol=0, atol=1e-9):
+            bad.append("rotation as %s: apply(N,4) on the same array a second time != R x + t" % tag)
         if not np.allclose(a, want, rtol=0, atol=1e-9):
             bad.append("rotation as %s: apply(N,3) != R x + t" % tag)
         if not np.allclose(b, want, rtol=0, atol=1e-9):
@@ -256,7 +260,10 @@ def part_c(ctx, m):
     def f():
         op = m.SymmetryOperation(R, t)
         x4 = np.array([[x[0, 0], x[0, 1], x[0, 2], 1]], dtype=object)
-        return op.translation, op.apply(x), op.apply(x4), op(x)
+        first = op.apply(x4)
+        first = np.array([[first[0, k] for k in range(first.shape[1])]], dtype=object)   # the values returned by the first call
+        # the same array of homogeneous points handed to the operation a second time (as in a loop over a space group)
+        return op.translation, op.apply(x), first, op(x), op.apply(x4)
     paths = ex.run(f)
     ctx.add_paths(ex)
     ctx.bound("(c) arbitrary real 3x3 rotation part, translation in (-3,3)^3, arbitrary point, arbitrary invertible cell")
@@ -264,7 +271,7 @@ def part_c(ctx, m):
         if p.exc is not None:
             ctx.harness_error("apply raised symbolically: %r" % (p.exc,))
             return
-        tw, a3, a4, ac = p.value
+        tw, a3, a4, ac, a4b = p.value
         ext = lambda mdl: {"R": [[model_value(mdl, R[i, j].t) for j in range(3)] for i in range(3)],
                            "t": [model_value(mdl, v.t) for v in t], "x": [model_value(mdl, v.t) for v in x[0]]}
         for i in range(3):
@@ -273,13 +280,15 @@ def part_c(ctx, m):
             goals = {"translation wrapped into [0,1) by an integer": wrapped,
                      "apply (N,3) = R x + t": (a3[0, i] == want).t,
                      "apply (N,4) = R x + t": (a4[0, i] == want).t,
+                     "apply (N,4) on the same array again = R x + t": (a4b[0, i] == want).t,
                      "__call__ = apply": (ac[0, i] == want).t}
             for nm, g in goals.items():
                 r = ctx.query("apply[%d]: %s" % (i, nm), p.pc, g, ex=ex)
                 if r.verdict == "cex":
                     ctx.violation("apply:forms", nm, ext(r.model), replay_apply)
         if a4.shape[1] == 4:
-            r = ctx.query("apply (N,4): homogeneous coordinate stays 1", p.pc, (a4[0, 3] == 1).t, ex=ex)
+            h = a4[0, 3] == 1
+            r = ctx.query("apply (N,4): homogeneous coordinate stays 1", p.pc, h.t if hasattr(h, "t") else z3.BoolVal(bool(h)), ex=ex)
     # the symbolic arrays above carry no machine type: the same identities on the real class for the array types callers use
     okt = True
     for Rg, tg in (([[0, -1, 0], [1, -1, 0], [0, 0, 1]], [1 / 3, 2 / 3, 0.5]), ([[-1, 0, 0], [0, -1, 0], [0, 0, -1]], [0.25, 0.75, 1 / 12])):
